@@ -331,9 +331,135 @@ def rule_lookups(prog, fixture=False):
     return r
 
 
+# ---------------------------------------------------------------- R-C16-4
+def _next_chain(rhs):
+    """(number of chained .next() calls, innermost expression)"""
+    cnt = 0
+    x = strip_all(rhs)
+    while x is not None and x.get("k") in ("CXXMemberCallExpr", "CXXConstructExpr", "MaterializeTemporaryExpr"):
+        if x.get("k") == "CXXMemberCallExpr":
+            cal = strip(x["c"][0])
+            if cal and cal.get("n") == "next":
+                cnt += 1
+                x = strip_all(cal["c"][0]) if cal.get("c") else None
+                continue
+            break
+        x = strip_all(x["c"][0]) if x.get("c") and len(x["c"]) == 1 else None
+    return cnt, x
+
+
+def rule_lowest_free(prog, fixture=False):
+    r = RuleResult("R-C16-4", "the search for a drive number starts at drive 0 and moves on by one only past a "
+                   "number that was found occupied (or from which the image does not fit): the lowest suitable "
+                   "number is never skipped", floor=0 if fixture else 3)
+    for fn in prog.functions.values():
+        if not (fn.relfile().endswith("storage.cc") or fixture):
+            continue
+        g = None
+        k = 0
+        for n in fn.walk():
+            if not (n.get("k") == "CXXOperatorCallExpr" and n.get("op") == "=" and len(n["c"]) == 3):
+                continue
+            tgt = strip_all(n["c"][1])
+            if tgt is None or tgt.get("k") != "DeclRefExpr" or tgt.get("dk") != "Var":
+                continue
+            cnt, inner = _next_chain(n["c"][2])
+            if cnt != 1 or inner is None or inner.get("d") != tgt.get("d"):
+                continue
+            if g is None:
+                g = Guards(fn)
+            k += 1
+            key = "%s::%s::%s-advance#%d" % (fn.relfile(), fn.qn, tgt.get("n"), k)
+            why = None
+            for atom, truth in (g.truths(n) or []):
+                a = strip_all(atom)
+                if a is None or not is_call(a):
+                    continue
+                q = notpl(a.get("q") or "")
+                args = call_args(a)
+                if not args or not same_expr(args[0], tgt):
+                    continue
+                if truth and q.endswith("is_drive_connected"):
+                    why = "the number left behind is occupied"
+                if not truth and q.endswith("check_sequence_fits"):
+                    why = "the image does not fit at the number left behind"
+                if truth and "function" in (a.get("t") or "") + notpl(a.get("q") or ""):
+                    why = why or None
+            r.add(key, fn.loc(n), why is not None, why if why else
+                  "`%s` moves on to the next drive number although the current one was not found occupied or "
+                  "unsuitable: a free lower number can be skipped" % show(n))
+            # where does the search start?
+            init = None
+            for v in fn.walk():
+                if v.get("k") == "VarDecl" and v.get("d") == tgt.get("d"):
+                    init = v
+            key2 = "%s::%s::%s-start#%d" % (fn.relfile(), fn.qn, tgt.get("n"), k)
+            if init is not None:
+                e = strip_all(init["c"][0]) if init.get("c") else None
+                zero = False
+                x = e
+                for _ in range(4):
+                    if x is not None and x.get("k") in ("CXXConstructExpr", "CXXFunctionalCastExpr", "CXXTemporaryObjectExpr") and \
+                            len([c for c in x.get("c", []) if (strip(c) or {}).get("k") != "CXXDefaultArgExpr"]) == 1:
+                        x = strip_all(x["c"][0])
+                if x is not None and folded(x) == 0:
+                    zero = True
+                r.add(key2, fn.loc(init), zero, "starts at drive 0" if zero else
+                      "the search starts at `%s`, not at drive 0: free numbers below it are never considered" %
+                      (show(e) if e is not None else "an unset value"))
+    return r
+
+
+# ---------------------------------------------------------------- R-C16-5
+def rule_drive_number_range(prog, fixture=False):
+    from .c08 import _interval
+    r = RuleResult("R-C16-5", "where a drive number typed on the command line is converted to the narrower type used "
+                   "as the key of the drive table, the value is known to fit (range facts about the unconverted "
+                   "value dominate the conversion): a number beyond the type's range is rejected, never wrapped "
+                   "onto another drive", floor=0 if fixture else 2)
+    for fn in prog.functions.values():
+        if not (fn.relfile().endswith("driveselector.cc") or fixture):
+            continue
+        g = None
+        k = 0
+        for n in fn.walk():
+            if n.get("k") not in ("CXXStaticCastExpr", "CStyleCastExpr", "CXXFunctionalCastExpr", "ImplicitCastExpr"):
+                continue
+            if n.get("ck") != "IntegralCast" or not n.get("w") or not n.get("c"):
+                continue
+            src = strip(n["c"][0])
+            while src is not None and src.get("k") == "ImplicitCastExpr" and src.get("ck") == "LValueToRValue":
+                src = strip(src["c"][0])
+            if src is None or src.get("k") != "DeclRefExpr" or src.get("dk") not in ("ParmVar", "Var") or not src.get("w"):
+                continue
+            sw, ss, tw, tsg = src["w"], bool(src.get("sg")), n["w"], bool(n.get("sg"))
+            slo, shi = (-(1 << (sw - 1)), (1 << (sw - 1)) - 1) if ss else (0, (1 << sw) - 1)
+            tlo, thi = (-(1 << (tw - 1)), (1 << (tw - 1)) - 1) if tsg else (0, (1 << tw) - 1)
+            if tlo <= slo and shi <= thi:
+                continue   # widening: always fits
+            # only conversions whose result is kept (returned, stored, passed on) - not the operands of a comparison
+            par = fn.parent(n)
+            while par is not None and par.get("k") in ("ImplicitCastExpr", "ParenExpr", "ExprWithCleanups"):
+                par = fn.parent(par)
+            if par is not None and par.get("k") == "BinaryOperator" and par.get("op") in ("<", ">", "<=", ">=", "==", "!="):
+                continue
+            if g is None:
+                g = Guards(fn)
+            iv = _interval(fn, g, n, n["c"][0])
+            k += 1
+            key = "%s::%s::narrow(%s)#%d" % (fn.relfile(), fn.qn, src.get("n"), k)
+            ok = iv is not None and tlo <= iv[0] and iv[1] <= thi
+            r.add(key, fn.loc(n), ok, "value in [%d,%d] fits" % iv if ok else
+                  "`%s` (%d-bit %s) is converted to a %d-bit %s value although it can be %s: a drive number outside the "
+                  "range wraps round to a different, existing drive instead of being rejected" %
+                  (src.get("n"), sw, "signed" if ss else "unsigned", tw, "signed" if tsg else "unsigned",
+                   "anything" if iv is None else "as large as %d" % iv[1] if iv[1] > thi else "as small as %d" % iv[0]))
+    return r
+
+
 def run(ctx):
     prog = ctx.prog("dfs", "N")
-    return [rule_tables(prog), rule_sequence_check(prog), rule_lookups(prog)]
+    return [rule_tables(prog), rule_sequence_check(prog), rule_lookups(prog), rule_lowest_free(prog), rule_drive_number_range(prog)]
 
 
 SELFTESTS = [
